@@ -31,9 +31,11 @@
 // and differ from the recursive index, so every other arrangement of (R, R, R, p4), (R, R, p4, p3)
 // lands in a different table or in no table.
 //
-// Known-finding harnesses (a success in a state where no such mapping exists; a walk through a
-// huge parent; a parent-flag call on an entry that is itself a huge leaf) fail with ONE named
-// clause; the remaining clauses are then evaluated for the required outcome only (`bogus`).
+// Known-finding harnesses (a success in a state where no such mapping exists; a parent-flag call
+// on an entry that is itself a huge leaf) fail with ONE named clause; the remaining clauses are
+// then evaluated for the required outcome only (`bogus`). A walk through a huge parent (repaired in
+// /repo by 22293bc) is attributed the same way, except that `no_access_outside_page_tables` is never
+// masked: it is a C09 violation of its own.
 // `unmap` has no such finding, so none of its clauses is masked.
 
 #[cfg(kani)]
